@@ -2,6 +2,7 @@
 
 L1: theorems of NfcVerif.Props.C03T34.
 L2: ordered write commands and the resulting memory, real code vs. Lean model.
+    Type 3 format(version, wipe): commands and resulting memory vs. Model/T3Format.lean.
 L3: byte-wise diff of the simulated memory before/after the write and the address range of
     every state-changing command: Type 3 only blocks 0 .. ceil(len/16) <= Nmaxb (block 0: only
     WriteF, Ln, checksum change), Type 4 only the NDEF file at offsets < NLEN size + len <= file
@@ -15,6 +16,8 @@ LEAN_TARGETS = ["NfcVerif.Props.C03T34", "drv_t34"]
 THEOREMS = [
     "NfcVerif.C03T34.t3_write_confined",
     "NfcVerif.C03T34.t4_write_confined",
+    "NfcVerif.C03T34.t3_format_confined",
+    "NfcVerif.C03T34.t3_format_version_none_counterexample",
 ]
 
 
@@ -90,3 +93,81 @@ def run_part(ck):
                     ck.fail("t4-wipe-outside-ndef-file", "octets beyond the size limit changed", {"layout": lay.descr()})
             ck.case((lay.key(), "wipe", str(ok)), ok is True, "t4:wipe:%s" % (ok if not isinstance(ok, str) else ok[:30]))
     T.compare(ck, model, jobs, "t34-write-commands-model-vs-nfcpy")
+    t3_format_part(ck, model)
+
+
+def t3_format_part(ck, model):
+    """Type 3 format(version, wipe): probing, new attribute block, optional wipe of the data blocks"""
+    import contextlib
+    import io
+    from sims.t34_sims import T3Sim, t3_attr
+    rng = ck.rng
+    jobs = []
+
+    def run_format(mem, lim_r, lim_w, version, wipe):
+        sim = T3Sim(mem, lim_r, lim_w)
+        out = io.StringIO()
+        try:
+            tag = sim.activate()
+            with contextlib.redirect_stdout(out):
+                r = tag.format(version=version, wipe=wipe)
+            res = "ok true" if r is True else "ok false" if r is False else "ok %r" % (r,)
+        except Exception as e:  # noqa
+            res = "exc " + T.xname(e)
+        cmds = ",".join("%s:%s" % (".".join(map(str, bl)), hx(d)) for bl, d in sim.writes) or "-"
+        return sim, res, "%s cmds=%s mem=%s" % (res, cmds, hx(sim.mem)), out.getvalue()
+
+    # which repairs does the tree contain?
+    _, res0, _, printed0 = run_format(t3_attr(0x10, 1, 1, 1, 0, 1, 0) + bytes(16), 1, 1, None, None)
+    rep = "1" if res0 == "ok true" else "0"
+    ck.notes.append("t34: Type 3 format(version=None) on this tree: %s, printed %d characters" % (res0, len(printed0)))
+    n_lay = 120 if ck.thorough else 24
+    sizes = [1, 2, 3, 8, 17, 40, 256, 257, 300] + ([1000] if ck.thorough else [])
+    for k in range(n_lay):
+        nblocks = rng.choice(sizes)
+        lim_r = rng.choice([1, 2, 4, 12, 15, 20])
+        lim_w = rng.choice([1, 2, 8, 12, 13, 14])
+        if k % 6 == 0:
+            lim_w = 13    # Nbw 13 must become 12 when block numbers need three octets
+        mem = bytearray(T.rbytes(rng, 16 * nblocks, 1))
+        if rng.random() < 0.7:
+            mem[0:16] = t3_attr(0x10, min(lim_r, 15), min(lim_w, 13), nblocks - 1, 0, 1, rng.randrange(0, 16 * (nblocks - 1) + 1))
+        version = rng.choice([None, None, 0x10, 0x11, 0x1F, 0x20, 0])
+        wipe = rng.choice([None, None, 0, 0x5A, 0xFF, rng.randrange(256)])
+        sim, res, line, printed = run_format(bytes(mem), lim_r, lim_w, version, wipe)
+        replay = {"format": True, "blocks": nblocks, "lim_r": lim_r, "lim_w": lim_w, "version": version, "wipe": wipe,
+                  "block0": bytes(mem[:16]).hex()}
+        jobs.append(("t3.format %s %s %d %d %s %s" % (rep, hx(mem), lim_r, lim_w,
+                                                      "none" if version is None else version,
+                                                      "none" if wipe is None else wipe), line, replay))
+        ck.case(("t3format", bytes(mem), lim_r, lim_w, version, wipe), res == "ok true", "t3:format:" + res[:24])
+        if printed:
+            ck.fail("t3-format-prints-to-stdout", "format() wrote %d characters to stdout: %r" % (len(printed), printed[:40]), replay)
+        for bl, d in sim.writes:
+            if any(b >= nblocks for b in bl) or len(d) != 16 * len(bl):
+                ck.fail("t3-format-write-outside-memory", "format wrote blocks %s" % bl[:5], replay)
+        good_version = version is None or version >> 4 == 1
+        if not good_version:
+            if version != 0 and (res != "ok false" or sim.writes):
+                ck.fail("t3-format-bad-version-not-refused", "version %r: %s, %d writes" % (version, res, len(sim.writes)), replay)
+            continue
+        if res != "ok true":
+            key = "t3-format-version-none-struct-error" if version is None and res == "exc struct.error" else "t3-format-fails"
+            ck.fail(key, "format(version=%r, wipe=%r) on a tag with %d blocks ended %s" % (version, wipe, nblocks, res), replay)
+            continue
+        after = bytes(sim.mem)
+        nbw = min(lim_w, 13)
+        if nbw == 13 and nblocks - 1 > 255:
+            nbw = 12
+        want0 = t3_attr(0x10 if version is None else version, min(lim_r, 15), nbw, nblocks - 1, 0, 1, 0)
+        if after[:16] != want0:
+            ck.fail("t3-format-attribute-block-wrong", "attribute block %s, expected %s" % (after[:16].hex(), want0.hex()), replay)
+        want_data = bytes(mem[16:]) if wipe is None else bytes([wipe]) * (16 * (nblocks - 1))
+        if after[16:] != want_data or len(after) != len(mem):
+            bad = [a for a in range(16, min(len(after), len(mem))) if after[a] != (mem[a] if wipe is None else wipe)]
+            ck.fail("t3-format-data-blocks-wrong", "wipe=%r: data octets %s differ from the expected contents" % (wipe, bad[:6]), replay)
+        # the formatted tag is an empty NDEF tag that round-trips
+        line2, nd = T.see(T3Sim(after, lim_r, lim_w))
+        if line2 != "ok cap=%d r=1 w=1 data=-" % (16 * (nblocks - 1)):
+            ck.fail("t3-format-result-not-empty-ndef", "fresh activation after format: %s" % line2[:80], replay)
+    T.compare(ck, model, jobs, "t3-format-model-vs-nfcpy")
